@@ -2,6 +2,7 @@ package c12
 
 import (
 	"fmt"
+	"os"
 	"math"
 	"math/big"
 	"math/cmplx"
@@ -586,9 +587,29 @@ func (k *ckksCtx) program(r *eng.Rand, pi int) {
 		c.Count("precision_measurements", 1)
 		c.Max("max_err_log2_x10_ckks", int64(10*log2(worst)))
 		c.Max("max_budget_log2_x10_ckks", int64(10*log2(ex.budget)))
-		c.Max("max_err_minus_budget_log2_x10_ckks", int64(10*(log2(worst)-log2(ex.budget))))
+		if os.Getenv("C12_DEBUG") != "" && worst > 0 && log2(worst)-log2(ex.budget) > -12 {
+			fmt.Fprintf(os.Stderr, "TIGHT %.1f vs %.1f: %+v\n", log2(worst), log2(ex.budget), desc)
+		}
+		if worst > 0 && worst <= ex.budget {
+			c.Max("max_err_over_budget_log2_x10_plus1000_ckks_passing", 1000+int64(10*(log2(worst)-log2(ex.budget))))
+		}
 		if !(worst <= ex.budget) {
-			fail("wrong-value", fmt.Sprintf("output %d: max |decoded-expected| = 2^%.1f at slot %d (got %v want %v), budget 2^%.1f", i, log2(worst), at, gv[at], ex.vals[at], log2(ex.budget)))
+			class := "wrong-value"
+			ksig := ""
+			if !p.isSeq() {
+				ksig = p.knownClass(i, n1s, cols)
+			} else {
+				for j := range p.lts {
+					if ksig = p.knownClass(j, n1s, cols); ksig != "" {
+						break
+					}
+				}
+			}
+			if ksig != "" {
+				c.Violate(ksig, fmt.Sprintf("%s output %d: max |decoded-expected| = 2^%.1f, budget 2^%.1f\nprogram=%+v", ent, i, log2(worst), log2(ex.budget), desc), desc)
+				continue
+			}
+			fail(class, fmt.Sprintf("output %d: max |decoded-expected| = 2^%.1f at slot %d (got %v want %v), budget 2^%.1f", i, log2(worst), at, gv[at], ex.vals[at], log2(ex.budget)))
 		}
 	}
 }
